@@ -1,6 +1,10 @@
 SPEC = {'id': 'C11',
  'manifest': {'technique': 'Coq proof over time-stamped event histories (failure window counts, retry schedule, limits) + loopback harness with '
                            'switchable upstreams and white-box counter reads',
-              'level_text': 'fails = window count, never negative; out-of-rotation iff; retry schedule; active marks; max_connections respected '
-                            '(refuted today: countConn has no call site, read from gen/Shape.v).',
-              'level_note': 'Goroutine wake-up latency is runtime (tolerances).'}}
+              'level_text': 'fails = window count (never negative), out-of-rotation iff, back-in-rotation, retry schedule and last error, active '
+                            'marks, effective limit (max_connections else unhealthy_connection_count, independent of fail_duration), '
+                            'max_conns_respected under one-at-a-time admission; Shape obligations tie forgetter sleep, tryAgain comparison and '
+                            'connection counting to the source. Loopback upstreams switchable refuse/accept, combined active/passive histories, '
+                            'staggered failures, limits grid through the real Provision, white-box counter reads at quiescent instants.',
+              'level_note': 'Goroutine wake-up latency is runtime (tolerances, counters sampled >= 45 ms from any boundary); the availability test '
+                            'and the increment are not atomic in the code, so the limit theorem assumes sequential admission.'}}
